@@ -45,6 +45,11 @@ func c12Opts(set, dir string) []func(*Config) {
 		o = append(o, Update(true))
 	case "updatefalse":
 		o = append(o, Update(false))
+	case "basejson":
+		// ONE option value shared by every Config of the case that is built from it (c12SharedJSON is set per run)
+		o = append(o, c12SharedJSON)
+	case "basejson+more":
+		o = append(o, c12SharedJSON, JSON(JSONConfig{Indent: "\t", SortKeys: false, Width: 3}))
 	case "json":
 		o = append(o, JSON(JSONConfig{Indent: "   ", Width: 10, SortKeys: false}))
 	case "all":
@@ -216,7 +221,7 @@ func c12Gen(c *vfCtx, emit func(c12Case)) {
 		}
 	}
 	// two Configs built one after the other in one process, differing in their options: the second behaves as if it were alone
-	pairSets := []string{"none", "update", "updatefalse", "ext", "json", "filename"}
+	pairSets := []string{"none", "update", "updatefalse", "ext", "json", "filename", "basejson", "basejson+more"}
 	for _, x := range pairSets {
 		for _, y := range pairSets {
 			if x == y {
@@ -224,6 +229,8 @@ func c12Gen(c *vfCtx, emit func(c12Case)) {
 			}
 			for _, a := range c12APIs {
 				emit(c12Case{Kind: "pair", OptSet: x, Seq: []string{y, a}})
+				// the same, with a call through the first Config before the call through the second
+				emit(c12Case{Kind: "pair", OptSet: x, Seq: []string{y, a, "xcall"}})
 			}
 		}
 	}
@@ -244,6 +251,9 @@ func c12Gen(c *vfCtx, emit func(c12Case)) {
 	}
 }
 
+// c12SharedJSON: an option VALUE (the func returned by snaps.JSON) reused across WithConfig calls, as a project-wide base would be
+var c12SharedJSON func(*Config)
+
 // c12Pair: WithConfig(X) then WithConfig(Y) in the same directory; one call through Y, compared with Y built alone elsewhere.
 func c12Pair(c *vfCtx, cs c12Case) {
 	c.addSet("nontrivial", vfHashJSON(cs))
@@ -258,10 +268,24 @@ func c12Pair(c *vfCtx, cs c12Case) {
 	os.MkdirAll(dir2, 0o755)
 	run := func(d string, first string) (string, []string) {
 		vfResetState(false, "", true)
-		if first != "" {
-			WithConfig(c12Opts(first, d)...)
+		c12SharedJSON = JSON(JSONConfig{Indent: "  ", SortKeys: true, Width: 40})
+		var cfg *Config
+		if y == "basejson" {
+			// built BEFORE the other one: building another Config later must not change this one
+			cfg = WithConfig(c12Opts(y, d)...)
 		}
-		cfg := WithConfig(c12Opts(y, d)...)
+		if first != "" {
+			cx := WithConfig(c12Opts(first, d)...)
+			if len(cs.Seq) > 2 {
+				tx := &vfT{name: "TestX"}
+				c12Do(cx, api, tx, 5)
+				tx.end()
+				c.count("transitions", 1)
+			}
+		}
+		if cfg == nil {
+			cfg = WithConfig(c12Opts(y, d)...)
+		}
 		t := &vfT{name: "TestA"}
 		before := vfSnapDir(d)
 		mk := t.mark()
